@@ -46,6 +46,10 @@ if mods:
         'LbzVerif.Props.C11.Expand.capacity',
         'LbzVerif.Props.C11.Expand.attach_in_range',
         'LbzVerif.Props.C11.Expand.no_unord_leak',
+        'LbzVerif.Props.C11.Expand.measure_decreases',
+        'LbzVerif.Props.C11.Expand.terminates',
+        'LbzVerif.Props.C11.Expand.maximal_run_final',
+        'LbzVerif.Props.C11.Expand.no_lost_wakeup',
     ])
 exe = ck.build_lbzip2(asan=False, ndebug=False)
 rng = ck.rng
